@@ -171,6 +171,13 @@ def prov(body, op, at, depth=0):
                 out.add("field:%s.%s" % (adt.rsplit("::", 1)[-1], a[2]))
     for c in sl.calls:
         name = short_path(c.generic)
+        if c.matches(r"std::convert::(From::from|Into::into)") and c.args and depth < 3 and \
+                body.locals[c.dest["l"]]["ty"] in INT_TYS + ("u128", "i128") and not c.dest["p"]:
+            # a lossless integer widening (`u128::from(x)` instead of `x as u128`) is the value it converts
+            sub = prov(body, c.args[0], c.bb, depth + 1)
+            if sub != "?":
+                out |= set(sub.split("+"))
+                continue
         if c.callee.get("local"):
             out.add("call:crate")
         elif K.meth(c.generic) in MEASURES and depth < 2 and c.args:
